@@ -327,22 +327,28 @@ theorem metaPut_fields (s : State) :
     (metaPut s).1.extRegistry = s.extRegistry ∧
     ((metaPut s).1.durableBound = s.durableBound ∨ (metaPut s).1.durableBound = s.extBound) ∧
     ((metaPut s).2 = true → (metaPut s).1.durableBound = s.extBound ∧ (metaPut s).1.durableRegistry = s.extRegistry) ∧
-    SameShape s (metaPut s).1 := by
+    SameShape s (metaPut s).1 ∧
+    (metaPut s).1.faultLands = s.faultLands ∧
+    ((metaPut s).2 = false → s.faultLands = false → (metaPut s).1.durableBound = s.durableBound) := by
   unfold metaPut SameShape
-  split <;> simp
+  split
+  · split <;> simp_all
+  · simp
+  · simp
 
 theorem persistKeys_fields (s : State) :
     (persistKeys s).1.bound = s.bound ∧
     ((persistKeys s).1.extBound = s.extBound ∨ (persistKeys s).1.extBound = s.bound) ∧
     ((persistKeys s).1.durableBound = s.durableBound ∨ (persistKeys s).1.durableBound = s.bound) ∧
     ((persistKeys s).2 = true → (persistKeys s).1.durableBound = s.bound ∧ (persistKeys s).1.extBound = s.bound) ∧
-    SameShape s (persistKeys s).1 := by
+    SameShape s (persistKeys s).1 ∧
+    (persistKeys s).1.faultLands = s.faultLands ∧
+    ((persistKeys s).2 = false → s.faultLands = false → (persistKeys s).1.durableBound = s.durableBound) := by
   unfold persistKeys
   split
   · simp [SameShape]
-  · have h := metaPut_fields { s with extBound := s.bound }
-    obtain ⟨h1, h2, _, h4, h5, h6⟩ := h
-    refine ⟨h1, .inr h2, ?_, ?_, h6⟩
+  · obtain ⟨h1, h2, _, h4, h5, h6, h7, h8⟩ := metaPut_fields { s with extBound := s.bound }
+    refine ⟨h1, .inr h2, ?_, ?_, h6, h7, h8⟩
     · rcases h4 with h4 | h4
       · exact .inl h4
       · exact .inr h4
@@ -359,39 +365,46 @@ theorem persistRegistry_fields (s : State) :
     (persistRegistry s).1.bound = s.bound ∧ (persistRegistry s).1.extBound = s.extBound ∧
     ((persistRegistry s).1.durableBound = s.durableBound ∨ (persistRegistry s).1.durableBound = s.extBound) ∧
     ((persistRegistry s).2 = true → (persistRegistry s).1.durableBound = s.extBound) ∧
-    SameShape s (persistRegistry s).1 := by
+    SameShape s (persistRegistry s).1 ∧
+    (persistRegistry s).1.faultLands = s.faultLands := by
   unfold persistRegistry
   split
   · simp [SameShape]
-  · obtain ⟨h1, h2, _, h4, h5, h6⟩ := metaPut_fields { s with extRegistry := s.registry }
-    exact ⟨h1, h2, h4, fun hok => (h5 hok).1, h6⟩
+  · obtain ⟨h1, h2, _, h4, h5, h6, h7, _⟩ := metaPut_fields { s with extRegistry := s.registry }
+    exact ⟨h1, h2, h4, fun hok => (h5 hok).1, h6, h7⟩
 
 theorem storeApiKey_fields (s : State) (name : String) (v : Option String) :
     ((storeApiKey s name v).2 = true →
         (storeApiKey s name v).1.bound = storeTarget s name v ∧
         (storeApiKey s name v).1.durableBound = storeTarget s name v ∧
         (storeApiKey s name v).1.extBound = storeTarget s name v) ∧
-    ((storeApiKey s name v).2 = false → (storeApiKey s name v).1.bound = s.bound) ∧
-    ((storeApiKey s name v).1.extBound = s.extBound ∨ (storeApiKey s name v).1.extBound = storeTarget s name v) ∧
+    ((storeApiKey s name v).2 = false →
+        (storeApiKey s name v).1.bound = s.bound ∧ (storeApiKey s name v).1.extBound = s.bound ∧
+        (s.faultLands = false → (storeApiKey s name v).1.durableBound = s.durableBound)) ∧
+    ((storeApiKey s name v).1.extBound = s.bound ∨ (storeApiKey s name v).1.extBound = storeTarget s name v) ∧
     ((storeApiKey s name v).1.durableBound = s.durableBound ∨
         (storeApiKey s name v).1.durableBound = storeTarget s name v) ∧
-    SameShape s (storeApiKey s name v).1 := by
+    SameShape s (storeApiKey s name v).1 ∧
+    (storeApiKey s name v).1.faultLands = s.faultLands := by
   unfold storeApiKey
-  obtain ⟨h1, h2, h3, h4, h5⟩ := persistKeys_fields { s with bound := storeTarget s name v }
-  simp only at h1 h2 h3 h4 h5 ⊢
+  obtain ⟨h1, h2, h3, h4, h5, h6, h7⟩ := persistKeys_fields { s with bound := storeTarget s name v }
+  simp only at h1 h2 h3 h4 h5 h6 h7 ⊢
   cases hr : (persistKeys { s with bound := storeTarget s name v }).2 with
   | true =>
     have := h4 hr
     simp only [if_true]
-    exact ⟨fun _ => ⟨h1, this.1, this.2⟩, (fun h => by cases h), h2, h3, h5⟩
+    exact ⟨fun _ => ⟨h1, this.1, this.2⟩, (fun h => by cases h), .inr this.2, h3, h5, h6⟩
   | false =>
     simp only [Bool.false_eq_true, if_false]
-    refine ⟨?_, ?_, h2, h3, h5⟩
+    refine ⟨?_, ?_, .inl rfl, h3, h5, h6⟩
     · first | trivial | (intro h; cases h)
-    · first | trivial | (intro _; rfl)
+    · first
+        | exact fun _ => ⟨rfl, rfl, h7 hr⟩
+        | exact ⟨rfl, rfl, h7 hr⟩
+        | (intro _; exact ⟨rfl, rfl, h7 hr⟩)
 
 theorem storeApiKey_ro (s : State) (name : String) (v : Option String) (h : s.primaryRO = true) :
-    storeApiKey s name v = (s, false) := by
+    storeApiKey s name v = ({ s with extBound := s.bound }, false) := by
   unfold storeApiKey
   rw [persistKeys_ro _ (by simpa using h)]
   simp
@@ -641,7 +654,7 @@ theorem Inv_of_bound_eq (cfg : Cfg) (s s' : State) (h : Inv cfg s) (hb : s'.boun
   Inv_of_maps_eq cfg s s' h hb he hd
 
 theorem persistRegistry_Inv (cfg : Cfg) (s : State) (h : Inv cfg s) : Inv cfg (persistRegistry s).1 := by
-  obtain ⟨h1, h2, h3, _, _⟩ := persistRegistry_fields s
+  obtain ⟨h1, h2, h3, _, _, _⟩ := persistRegistry_fields s
   unfold Inv at h ⊢
   rw [h1, h2]
   refine ⟨h.1, h.2.1, ?_⟩
@@ -651,14 +664,14 @@ theorem persistRegistry_Inv (cfg : Cfg) (s : State) (h : Inv cfg s) : Inv cfg (p
 
 theorem storeApiKey_Inv (cfg : Cfg) (s : State) (n : String) (v : Option String) (h : Inv cfg s)
     (ht : GoodMap cfg (storeTarget s n v)) : Inv cfg (storeApiKey s n v).1 := by
-  obtain ⟨h1, h2, h3, h4, _⟩ := storeApiKey_fields s n v
+  obtain ⟨h1, h2, h3, h4, _, _⟩ := storeApiKey_fields s n v
   unfold Inv at h ⊢
   refine ⟨?_, ?_, ?_⟩
   · cases hr : (storeApiKey s n v).2 with
     | true => rw [(h1 hr).1]; exact ht
-    | false => rw [h2 hr]; exact h.1
+    | false => rw [(h2 hr).1]; exact h.1
   · rcases h3 with e | e <;> rw [e]
-    · exact h.2.1
+    · exact h.1
     · exact ht
   · rcases h4 with e | e <;> rw [e]
     · exact h.2.2
@@ -809,6 +822,7 @@ theorem stepEvent_Inv (cfg : Cfg) (s : State) (e : Event) (h : Inv cfg s) : Inv 
   | restart => exact loadDurable_Inv cfg _ h.2.1
   | crash => exact loadDurable_Inv cfg _ h.2.2
   | fault k => exact Inv_of_maps_eq cfg s _ h rfl rfl rfl
+  | faultLanding k => exact Inv_of_maps_eq cfg s _ h rfl rfl rfl
 
 theorem run_Inv (cfg : Cfg) (s : State) (es : List Event) (h : Inv cfg s) : Inv cfg (run cfg s es) := by
   induction es generalizing s with
